@@ -177,7 +177,7 @@ func drawInstant(t *rapid.T) Instant {
 
 var specInstants = pbt.Register(pbt.Spec[Instant]{
 	Prop: "C19", Name: "calendar-random-instants",
-	Rule: "rapid-drawn instants of the century, drawn field by field (year, month, day, hour, minute, second, millisecond; each either over its whole range or from its edge values: first/last day of a month, 59 -> 00 roll-overs, five-minute borders, one-/two-/three-digit milliseconds); same comparison as the day sweep, which includes the unit functions one millisecond before and at the surrounding step borders; non-trivial = offset not in the fixed list of the sweep; distinct by instant",
+	Rule:  "rapid-drawn instants of the century, drawn field by field (year, month, day, hour, minute, second, millisecond; each either over its whole range or from its edge values: first/last day of a month, 59 -> 00 roll-overs, five-minute borders, one-/two-/three-digit milliseconds); same comparison as the day sweep, which includes the unit functions one millisecond before and at the surrounding step borders; non-trivial = offset not in the fixed list of the sweep; distinct by instant",
 	Quick: 1500000, Thorough: 7305000,
 	Draw: drawInstant,
 	Run: func(c Instant) *pbt.Result {
@@ -213,6 +213,9 @@ func TestRandomInstants(t *testing.T) { specInstants.Check(t) }
 type FmtCase struct {
 	Pattern string `json:"pattern"`
 	T       int64  `json:"t"` // Unix milliseconds, 2000-01-01 … 2099-12-31
+	// Seq: further instants (cumulative millisecond steps from T, kept inside the century) formatted
+	// one after the other by the SAME DateFormat object
+	Seq []int64 `json:"seq,omitempty"`
 }
 
 const fieldLetters = "ymdHMSs"
@@ -306,7 +309,33 @@ func runFmt(c FmtCase) *pbt.Result {
 			return pbt.Fail("pattern %q has every field: Parse(Format(t)) = %d, t = %d", c.Pattern, ms, c.T)
 		}
 	}
+	// the same object formats further instants: its output is a function of the pattern and the instant only
+	cur := c.T
+	for i, d := range c.Seq {
+		cur += d
+		if cur < baseMs || cur >= endMs {
+			cur = c.T
+		}
+		w2 := time.UnixMilli(cur).In(time.Local)
+		got2 := df.FormatTime(w2)
+		fresh2 := dateutil.NewDateFormat(c.Pattern).FormatTime(w2)
+		if got2 != fresh2 {
+			return pbt.Fail("pattern %q: after formatting %d other instant(s), FormatTime(%s) = %q on the re-used object but %q on a fresh one", c.Pattern, i+1, w2.Format(time.RFC3339Nano), got2, fresh2)
+		}
+		ms2, err := dateutil.NewDateFormat(c.Pattern).Parse(got2)
+		if err != nil {
+			return pbt.Fail("pattern %q: Parse(%q) failed: %v", c.Pattern, got2, err)
+		}
+		g2 := time.UnixMilli(ms2).In(time.Local)
+		if present['s'] && g2.Nanosecond()/1e6 != w2.Nanosecond()/1e6 || present['S'] && g2.Second() != w2.Second() || present['M'] && g2.Minute() != w2.Minute() ||
+			present['H'] && g2.Hour() != w2.Hour() || present['d'] && (g2.Day() != w2.Day() || g2.Month() != w2.Month() || g2.Year() != w2.Year()) {
+			return pbt.Fail("pattern %q (re-used object): Format(%s) = %q parses as %s", c.Pattern, w2.Format(time.RFC3339Nano), got2, g2.Format(time.RFC3339Nano))
+		}
+	}
 	cls := []string{fmt.Sprintf("fields=%d", nfields)}
+	if len(c.Seq) > 0 {
+		cls = append(cls, "reused-formatter-sequence")
+	}
 	if present['y'] {
 		cls = append(cls, "with-date")
 	} else {
@@ -323,12 +352,15 @@ func runFmt(c FmtCase) *pbt.Result {
 
 var specFmt = pbt.Register(pbt.Spec[FmtCase]{
 	Prop: "C19", Name: "dateformat-roundtrip",
-	Rule: "patterns over the field letters y m d H M S s (date letters all present or all absent, any subset/order of the time letters, occasionally a repeated letter) with optional literal separators (ASCII punctuation, T, Z, multi-byte runes) and an instant of the century drawn field by field with edge values; Parse(Format(t)) must agree with t on every field present (and equal t when all seven are present), with a fresh and with a re-used DateFormat; non-trivial = >= 3 fields; distinct by (pattern, instant)",
+	Rule:  "patterns over the field letters y m d H M S s (date letters all present or all absent, any subset/order of the time letters, occasionally a repeated letter) with optional literal separators (ASCII punctuation, T, Z, multi-byte runes) and an instant of the century drawn field by field with edge values; Parse(Format(t)) must agree with t on every field present (and equal t when all seven are present), with a fresh and with a re-used DateFormat; in a third of the cases the same object then formats 1-5 further instants (steps of 1 ms .. 1 day, also backwards): each text must equal what a fresh object produces and parse back to its instant; non-trivial = >= 3 fields; distinct by (pattern, instant)",
 	Quick: 300000, Thorough: 1500000,
 	Draw: func(t *rapid.T) FmtCase {
 		c := FmtCase{Pattern: drawPattern(t)}
 		in := drawInstant(t)
 		c.T = baseMs + int64(in.Day)*msDay + in.Off
+		if rapid.IntRange(0, 2).Draw(t, "sequence") == 0 {
+			c.Seq = rapid.SliceOfN(rapid.SampledFrom([]int64{1, 1, 2, 10, 500, 999, 1000, 1001, -1, -999, 59999, 60000, 3600000, 86400000, -86400000}), 1, 5).Draw(t, "seq")
+		}
 		return c
 	},
 	Run: runFmt,
